@@ -198,7 +198,7 @@ def check_input_tuples(input_data, context, preprocessor, args_for_sk_checks,
     else:
       make_error_input(201, input_data, context)
   check_tuple_size(input_data, tuple_size, context)
-  return input_data
+  return _integers_to_float(input_data)
 
 
 def check_input_classic(input_data, context, preprocessor, args_for_sk_checks):
@@ -225,6 +225,16 @@ def check_input_classic(input_data, context, preprocessor, args_for_sk_checks):
       make_error_input(111, input_data, context)
     else:
       make_error_input(101, input_data, context)
+  return _integers_to_float(input_data)
+
+
+def _integers_to_float(input_data):
+  """Converts integer (or boolean) points/tuples to floats: the learners take
+  differences and squares of the coordinates, which wrap around for unsigned
+  integers and overflow for small integer types."""
+  if getattr(input_data, 'dtype', None) is not None and \
+          input_data.dtype.kind in 'biu':
+    return input_data.astype(float)
   return input_data
 
 
